@@ -32,6 +32,10 @@ var c08Msgs = func() [][]byte {
 		ref.Encode(0x0001, tid(0x70), []ref.EncodeAttr{{Type: 0x7F00, Value: v(0, 0)}, {Type: 0x7F01, Value: v(0, 0)}, {Type: 0x7F02, Value: v(0, 0)}, {Type: 0x7F03, Value: v(0, 0)}, {Type: 0x7F04, Value: v(0, 0)}, {Type: 0x7F05, Value: v(0, 0)}, {Type: 0x7F06, Value: v(0, 0)}, {Type: 0x7F07, Value: v(0, 0)}, {Type: 0x7F08, Value: v(0, 0)}}),
 		ref.Encode(0x0001, tid(0x80), []ref.EncodeAttr{{Type: 0x0006, Value: v(61, 11)}, {Type: 0x0014, Value: v(62, 12)}, {Type: 0x0015, Value: v(63, 13)}}),
 		ref.Encode(0x0001, tid(0x90), []ref.EncodeAttr{{Type: 0x0013, Value: v(1201, 14)}}),
+		// a short first attribute followed by longer ones whose lengths are not multiples of 4: dropping the first and
+		// re-encoding in place moves every later value left by less than its own length
+		ref.Encode(0x0001, tid(0xA0), []ref.EncodeAttr{{Type: 0x0024, Value: v(4, 15)}, {Type: 0x0006, Value: v(13, 16)}, {Type: 0x8022, Value: v(30, 17)}, {Type: 0x0014, Value: v(1, 18)}}),
+		ref.Encode(0x0001, tid(0xB0), []ref.EncodeAttr{{Type: 0x7F00, Value: v(0, 0)}, {Type: 0x0006, Value: v(7, 19)}, {Type: 0x0015, Value: v(10, 20)}}),
 	}
 	// three that fail to decode
 	bad1 := append([]byte(nil), msgs[3]...)
@@ -43,7 +47,7 @@ var c08Msgs = func() [][]byte {
 	return append(msgs, bad1, bad2, bad3)
 }()
 
-var c08DecodeNames = []string{"Decode(data,m)", "Write", "UnmarshalBinary", "ReadFrom", "CloneTo", "ReadFrom(segmented stream: 20 | 10 | rest)", "ReadFrom(zero-length datagram)"}
+var c08DecodeNames = []string{"Decode(data,m)", "Write", "UnmarshalBinary", "ReadFrom", "CloneTo", "ReadFrom(segmented stream: 20 | 10 | rest)", "ReadFrom(zero-length datagram)", "GobDecode", "Write; drop the first attribute; Encode in place"}
 
 // c08Setters: each entry builds the setter list from caller-owned buffers and
 // returns the buffers so that the caller can overwrite them afterwards.
@@ -160,6 +164,15 @@ func c08Apply(m *stun.Message, u int, poison byte) error {
 	case 6:
 		// a packet connection delivers an empty datagram as (0, nil)
 		_, err = m.ReadFrom(&reusableReader{})
+	case 7:
+		err = m.GobDecode(data)
+	case 8:
+		// (only with at least two attributes: Encode on an attribute list emptied by hand writes the header before it
+		// resets Length, which no operation the property lists can set up)
+		if _, err = m.Write(data); err == nil && len(m.Attributes) >= 2 {
+			m.Attributes = m.Attributes[1:]
+			m.Encode()
+		}
 	}
 	scribble(data)
 	return err
@@ -252,11 +265,11 @@ func c08Run(k c08Case) (outcome, key, detail string) {
 					return
 				}
 				nd := len(c08DecodeNames) * len(c08Msgs)
-				if u < nd && u/len(c08Msgs) < 5 && !bytes.Equal(m.Raw, c08Msgs[u%len(c08Msgs)]) {
+				if u < nd && (u/len(c08Msgs) < 5 || u/len(c08Msgs) == 7) && !bytes.Equal(m.Raw, c08Msgs[u%len(c08Msgs)]) {
 					key, detail = "input-aliased", fmt.Sprintf("%s: Raw changed when the caller overwrote its input", c08UseName(u))
 					return
 				}
-				if u < nd && u/len(c08Msgs) < 5 {
+				if u < nd && (u/len(c08Msgs) < 5 || u/len(c08Msgs) == 7) {
 					// absolute check (the fresh twin shares any aliasing bug): after the caller overwrote its input the
 					// decoded content must still be that of the original bytes, and every value must live inside m.Raw
 					want, _ := ref.Parse(c08Msgs[u%len(c08Msgs)])
@@ -276,6 +289,22 @@ func c08Run(k c08Case) (outcome, key, detail string) {
 								key, detail = "value-outside-raw", fmt.Sprintf("%s: attribute %d does not point into m.Raw", c08UseName(u), i)
 								return
 							}
+						}
+					}
+				}
+				if u < nd && u/len(c08Msgs) == 8 {
+					// absolute check: the re-encoded message is the canonical encoding of the attributes that were kept
+					if pm, _ := ref.Parse(c08Msgs[u%len(c08Msgs)]); pm != nil && len(pm.Attrs) >= 2 {
+						var keep []ref.EncodeAttr
+						for i, a := range pm.Attrs {
+							if i > 0 {
+								keep = append(keep, ref.EncodeAttr{Type: ref.CanonType(a.Type), Value: a.Value})
+							}
+						}
+						want := ref.Encode(ref.TypeWord(pm.Method, pm.Class), pm.TID, keep)
+						if !bytes.Equal(m.Raw, want) {
+							key, detail = "reencode-in-place", fmt.Sprintf("%s: Raw is %x, the canonical encoding of the kept attributes is %x", c08UseName(u), clip(m.Raw), clip(want))
+							return
 						}
 					}
 				}
